@@ -25,7 +25,7 @@ def cases(tier, seed, rigid):
     rng = random.Random(seed * 19 + (1 if rigid else 0))
     g = G.G(rng, rigid=rigid)
     out = []
-    for _ in range(250 if tier == "quick" else 5000):
+    for _ in range(250 if tier == "quick" else 2200):
         a, ia = g.diagram(n_boxes=rng.randint(0, 4), max_width=4)
         b, ib = g.diagram(dom=ia[1], n_boxes=rng.randint(0, 3), max_width=4)
         x, ix = g.diagram(n_boxes=rng.randint(0, 3), max_width=3)
